@@ -433,9 +433,15 @@ def gen_middle(rng, n, big):
         nrec = rng.choice([1, 2, rng.range(3, 40), rng.range(65, 400 if big else 200), rng.range(65, 130)])
         nrec = min(nrec, max_vocab)
         words = sorted(set(rng.below(max_vocab + 1) for _ in range(nrec * 2)))[:nrec]
-        style = rng.below(4)
+        style = rng.below(5)
+        kind = rng.choice(["A", "A", "A", "D"])
+        if style == 4:
+            # next pointers of 32 .. 56 bits (an order with 2^31 and more n-grams below it; only the pointers are that large, not the
+            # array): the uncompressed pointer field read through BitsMask::ByMax (fifth-round seeded change C20-15: 32-bit shift)
+            kind, quant, nrec = "D", rng.choice([0, 1, 8]), min(nrec, 40)
+            words = words[:nrec]
         recs = []
-        hubs = set(rng.below(max(1, len(words))) for _ in range(rng.range(1, 3))) if style == 3 else set()
+        hubs = set(rng.below(max(1, len(words))) for _ in range(rng.range(1, 3))) if style in (3, 4) else set()
         for wi, w in enumerate(words):
             if style == 0:
                 ch = rng.below(4)
@@ -443,12 +449,14 @@ def gen_middle(rng, n, big):
                 ch = rng.choice([0, 0, 0, 1, rng.range(100, 3000)])       # a few hubs
             elif style == 2:
                 ch = rng.range(50, 400)
+            elif style == 4:
+                ch = rng.choice([1 << 31, (1 << 32) - 1, 1 << 32, rng.range(1 << 31, 1 << 40), rng.range(1 << 40, 1 << 54)]) if wi in hubs else rng.below(4)
             else:
                 # one to three nodes whose child range spans several blocks of the compressed pointer array
                 ch = rng.choice([rng.range(30000, 70000), rng.range(1 << 16, 1 << 19)]) if wi in hubs else rng.below(4)
             recs.append("%s:%s:%s" % (hx(w), hx(rng.below(1 << quant) if quant else 0), hx(ch)))
         bits = rng.choice([0, 1, 2, 3, 8, 22, 64, rng.range(0, 64)])
-        cases.append("TM %s %s %s %s %s" % (rng.choice(["A", "A", "A", "D"]), hx(bits), hx(max_vocab), hx(quant), " ".join(recs)))
+        cases.append("TM %s %s %s %s %s" % (kind, hx(bits), hx(max_vocab), hx(quant), " ".join(recs)))
     return cases
 
 
@@ -508,7 +516,7 @@ def run(ctx):
     cases += gen_bitpack(rng, ctx.pick(1500, 40000)) + gen_scalar(rng, ctx.pick(600, 10000)) + \
         gen_table(rng, ctx.pick(700, 12000), big) + gen_table_wrap(rng, ctx.pick(40, 600)) + gen_search(rng, ctx.pick(900, 20000), big) + gen_array(rng, ctx.pick(250, 4000), big) + gen_middle(rng, ctx.pick(250, 3000), big)
     impl = vlib.compile_driver("c20_driver", os.path.join(vlib.ROOT, "harness", "drivers", "c20_driver.cc"), libs=("kenlm", "kenlm_util"))
-    iout = vlib.run_lines(impl, cases, restarts=12)
+    iout = vlib.run_lines(impl, cases, restarts=12, timeout=ctx.pick(150, 900))
     # step 5: specification oracle on the implementation
     spec_fail = []
     nontrivial = set()
